@@ -183,6 +183,9 @@ func (c *connection) send(conn net.Conn, connDone chan bool) {
 			}
 			select {
 			case m = <-c.client.sendQueue: // Fetch jobs
+			case m = <-c.client.sendFailQueue: // a failed request must not wait for the ticker
+			case <-connDone: // connection closed: stop competing for requests
+				return
 			case <-t.C:
 				if vhook.Enabled {
 					vhook.At("client.send.tick", conn)
@@ -200,6 +203,15 @@ func (c *connection) send(conn net.Conn, connDone chan bool) {
 				}
 				continue
 			}
+		}
+		if !c.isLive(conn) {
+			// this connection has been closed or replaced meanwhile: hand the request to the sender of
+			// the live connection (dialling one if there is none) instead of writing to a dead one
+			c.client.sendFailQueue <- m
+			if err := c.ReConnect(); err != nil {
+				TLOG.Errorf("send request reconnect error: %v", err)
+			}
+			return
 		}
 		if vhook.Enabled {
 			vhook.At("client.send.dequeued", conn, m.req, m.retry)
@@ -309,10 +321,20 @@ func (c *connection) recv(conn net.Conn, connDone chan bool) {
 	}
 }
 
+// isLive reports whether conn is the current connection and has not been closed.
+func (c *connection) isLive(conn net.Conn) bool {
+	c.connLock.Lock()
+	defer c.connLock.Unlock()
+	return !c.isClosed && c.conn == conn
+}
+
 func (c *connection) close(conn net.Conn) {
 	c.connLock.Lock()
 	defer c.connLock.Unlock()
-	c.isClosed = true
+	if conn == c.conn {
+		// losing an old connection must not mark a newer, healthy one as closed
+		c.isClosed = true
+	}
 	if vhook.Enabled {
 		vhook.At("client.close", c.client, conn)
 	}
